@@ -70,8 +70,15 @@ func NewSimReader(s *Sim, src string, plan ReaderPlan) *SimReader {
 
 func (r *SimReader) Pos() int { return r.pos }
 
+// NoProgressMarker is the panic message used to stop a loop that keeps calling the reader although
+// it has been answering io.EOF for a long time (the driver maps it to the class reader-no-progress-loop).
+const NoProgressMarker = "gosim: reader operation budget exceeded twice: the caller spins on the reader"
+
 func (r *SimReader) budget() bool {
 	r.Ops++
+	if r.Ops > 2*r.Budget+1000 {
+		panic(NoProgressMarker)
+	}
 	if r.Ops > r.Budget {
 		if !r.OverBudget {
 			r.OverBudget = true
@@ -197,6 +204,9 @@ func (r *SimByteReader) Pos() int { return r.pos }
 
 func (r *SimByteReader) Read(p []byte) (int, error) {
 	r.Ops++
+	if r.Ops > 2*r.Budget+1000 {
+		panic(NoProgressMarker)
+	}
 	if r.Ops > r.Budget {
 		if !r.OverBudget {
 			r.OverBudget = true
